@@ -92,6 +92,12 @@ func (it *interp) project(d *disjunct, cf frameID) {
 			delete(d.vals, k)
 		}
 	}
+	it.eliminateUnreachable(d)
+}
+
+// eliminateUnreachable removes from the facts every atom that no live value, memory cell or pending result
+// mentions (exact Fourier-Motzkin; facts are dropped when an elimination would be too large).
+func (it *interp) eliminateUnreachable(d *disjunct) {
 	live := map[int]bool{}
 	add := func(v int) { live[v] = true }
 	for _, r := range d.vals {
@@ -314,4 +320,89 @@ func (it *interp) dedupe(s *state) *state {
 		out.ds = append(out.ds, d)
 	}
 	return out
+}
+
+// projectIter prepares a disjunct that has just taken a back edge of an unrolled loop for the next
+// iteration: the SSA values computed by the iteration (isDead) are about to be computed again, so nothing
+// may keep referring to their atoms. Live representations (head phis, values defined outside the loop,
+// memory cells) that mention such an atom are re-expressed through a fresh atom tied to the old
+// expression by an equality; then the iteration's values are forgotten and their atoms eliminated.
+func (it *interp) projectIter(d *disjunct, isDead func(k valKey) bool) {
+	deadAtom := func(v int) bool {
+		if v < 0 || v >= len(it.at.info) {
+			return false
+		}
+		in := it.at.info[v]
+		switch in.kind {
+		case aVal, aLen, aCap, aNil:
+			return in.key.v != nil && isDead(in.key)
+		}
+		return false
+	}
+	fresh := func(l *lin.Lin, what string) *lin.Lin {
+		if l == nil || l.Bad() {
+			return l
+		}
+		hit := false
+		for _, v := range l.Vars() {
+			if deadAtom(v) {
+				hit = true
+			}
+		}
+		if !hit {
+			return l
+		}
+		a := lin.Var(it.at.fresh(what))
+		d.addFacts(lin.EQ(a, l)...)
+		return a
+	}
+	var fix func(r rep) rep
+	fix = func(r rep) rep {
+		r.lin = fresh(r.lin, "it")
+		r.len = fresh(r.len, "itlen")
+		r.cap = fresh(r.cap, "itcap")
+		r.isnil = fresh(r.isnil, "itnil")
+		if r.cmp != nil && (isDead(valKey{r.cmp.f, r.cmp.op})) {
+			r.cmp = nil
+			if r.lin == nil {
+				id := it.at.fresh("itbool")
+				it.at.setRange(id, 0, 1, true, true)
+				r.lin = lin.Var(id)
+			}
+		}
+		if r.at != nil && isDead(r.at.root) {
+			r.at = nil
+		}
+		if r.clos != nil && isDead(valKey{r.clos.f, r.clos.mc}) {
+			r.clos = nil
+		}
+		for i := range r.tuple {
+			r.tuple[i] = fix(r.tuple[i])
+		}
+		return r
+	}
+	for k, r := range d.vals {
+		if isDead(k) {
+			continue
+		}
+		d.vals[k] = fix(r)
+	}
+	for k, c := range d.mem {
+		if c == nil {
+			continue
+		}
+		if c.a.root.v != nil && isDead(c.a.root) {
+			delete(d.mem, k) // a cell of an object allocated by the iteration
+			continue
+		}
+		nv := fix(c.val)
+		d.mem[k] = &memCell{a: c.a, typ: c.typ, val: nv}
+	}
+	for k := range d.vals {
+		if isDead(k) {
+			delete(d.vals, k)
+		}
+	}
+	d.memo = nil
+	it.eliminateUnreachable(d)
 }
